@@ -23,5 +23,6 @@ func TestVerifC01E1(t *testing.T) {
 	explore.Main("C01", []explore.Part{
 		wrap("e1-completion-send", "send"),
 		wrap("e1-completion-loop", "loop"),
+		c01bPart(),
 	}, func(msg string) { t.Fatal(msg) })
 }
